@@ -490,6 +490,7 @@ def _pure_sig(v, depth=0):
     return _NOSIG
 
 
+_TYPE_NAMES = {"str", "int", "bool", "float", "list", "tuple", "dict", "set", "frozenset", "bytes", "NoneType", "Fraction"}
 _DEEP = {"set": False}
 
 
@@ -546,6 +547,8 @@ class Interp(object):
         self.modcache = {}
         self.generators = []
         self.mod_inited = set()
+        self.apply_decorators = set()    # qualified names of repository decorators to interpret
+        self._decorated = {}
         if hasattr(explorer, "interps"):
             explorer.interps.append(self)
 
@@ -1039,6 +1042,8 @@ class Interp(object):
                 if f is not None:
                     decs = [norm(d) for d in f.decorator_list]
                     fn = Func(f, ci.module, q)
+                    if self.apply_decorators and f.decorator_list:
+                        fn = self._decorate(fn, f, ci, q)
                     if "property" in decs:
                         if inst is None:
                             return fn
@@ -1061,6 +1066,25 @@ class Interp(object):
         if inst is not None and inst.tag == "exc" and name in ("message", "args"):
             return inst.attrs.get("args", ())
         raise AbsRaise("AttributeError", ("%s has no attribute %s" % (qual, name),))
+
+    def _decorate(self, fn, f, ci, q):
+        """Apply, innermost first, the decorators of f that are repository functions named in
+        self.apply_decorators (e.g. pysmt.decorators.clear_pending_pop); others are seen through."""
+        key = (q, f.name)
+        if key in self._decorated:
+            return self._decorated[key]
+        out = fn
+        for d in reversed(f.decorator_list):
+            dn = norm(d)
+            if dn in ("property", "staticmethod", "classmethod") or dn.endswith(".setter"):
+                continue
+            r = self.repo.resolve_expr(ci.module, d.func if isinstance(d, ast.Call) else d)
+            if r and r[0] == "func":
+                qual = r[1].name + "." + r[2].name
+                if qual in self.apply_decorators and not isinstance(d, ast.Call):
+                    out = self.call(Func(r[2], r[1]), [out])
+        self._decorated[key] = out
+        return out
 
     _STR_METHODS = {"startswith", "endswith", "replace", "find", "join", "lower", "upper", "format", "split",
                     "strip", "isdigit", "isascii", "rjust", "ljust", "zfill", "count", "index", "lstrip", "rstrip"}
@@ -1289,6 +1313,25 @@ class Interp(object):
             return
         if t is ast.Delete:
             for tg in st.targets:
+                if isinstance(tg, ast.Subscript) and isinstance(tg.slice, ast.Slice):
+                    c = self.eval(tg.value, env, ctx)
+                    sl = tg.slice
+                    lo = self.eval(sl.lower, env, ctx) if sl.lower is not None else None
+                    hi = self.eval(sl.upper, env, ctx) if sl.upper is not None else None
+                    stp = self.eval(sl.step, env, ctx) if sl.step is not None else None
+                    if isinstance(c, list) and not any(isinstance(v, Abs) for v in (lo, hi, stp)):
+                        del c[slice(lo, hi, stp)]
+                        continue
+                    self.unsupported("del of a slice of %r" % (c,), st)
+                if isinstance(tg, ast.Name):
+                    if tg.id in env.vars:
+                        del env.vars[tg.id]
+                        continue
+                if isinstance(tg, ast.Attribute):
+                    o = self.eval(tg.value, env, ctx)
+                    if isinstance(o, AObj) and tg.attr in o.attrs:
+                        del o.attrs[tg.attr]
+                        continue
                 if isinstance(tg, ast.Subscript):
                     c = self.eval(tg.value, env, ctx)
                     k = self.eval(tg.slice, env, ctx)
@@ -1703,6 +1746,14 @@ class Interp(object):
                 r = a is b
             elif isinstance(a, Abs) or isinstance(b, Abs):
                 r = a is b
+                if not r:
+                    # type objects: type(x) is str, cls is OtherClass
+                    ta = a.name.split(".")[-1] if isinstance(a, (ExtRef, Prim)) else None
+                    tb = b.name.split(".")[-1] if isinstance(b, (ExtRef, Prim)) else None
+                    if ta is not None and tb is not None and ta == tb and ta in _TYPE_NAMES:
+                        r = True
+                    if isinstance(a, ClassRef) and isinstance(b, ClassRef):
+                        r = a.qual == b.qual
             else:
                 r = (a is b) or (a == b and type(a) is type(b) and isinstance(a, (int, str)))
             return r if isinstance(op, ast.Is) else not r
